@@ -53,17 +53,20 @@ BOUNDS = {
              "(int, ndarray and Array2D forms), 3x4 with sub-size 2, every sub-size map over {1,2,3} for shapes with <= 4 pixels and over {1,2} for 2x3/3x2; pixel scales (>0) "
              "and origin of the sub-border grid symbolic reals. BorderRelocator / Rectangular / Delaunay entry points: all masks of shapes with <= 4 pixels plus a 5x5 annulus "
              "and a 3x4 L-shape, sub-size 1 and 2; one symbolic data-grid point or one symbolic mesh vertex per run, the other data-grid points concrete; the source-plane "
-             "border (the data grid at the sub-border indices) is a concrete exact-radius point set of the right size",
+             "border (the data grid at the sub-border indices) is a concrete exact-radius point set of the right size; call histories on ONE relocator "
+             "(grid(A) then mesh(B); grid(A) then Delaunay mapper grids on B with preloads.relocated_grid; mesh(A), grid(B), grid(A), grid(B), mesh(B)) with two "
+             "source planes of different borders, every call checked against the border of the grid passed to it: all masks of shapes <= 3 pixels, 2x2, the L-shape",
     "thorough": "kernel: scales 1, 1/16, 1/4, 4; 2 symbolic points for six borders, 3 for two; sub-border indices: uniform sub-size 1..4 for shapes with <= 9 pixels, "
-                "sub-size 2..3 for 3x4, 4x3, 2x5, 5x2; all sub-size maps over {1,2,3} for shapes with <= 6 pixels and over {1,2} for 2x4/4x2; classes: all masks of shapes "
-                "with <= 6 pixels (sub-size 1..3 up to 4 pixels, 2 above), three named larger masks",
+                "sub-size 2..3 for 3x4, 4x3; all sub-size maps over {1,2,3} for shapes with <= 6 pixels and over {1,2} for 2x4; classes: all masks of shapes "
+                "with <= 6 pixels except 1x6/6x1 (sub-size 1..3 up to 4 pixels, 2 above), three named larger masks; call histories: shapes <= 4 pixels, 2x3, 3x2, L-shape, annulus",
 }
 OUTSIDE = [
     "symbolic border points (nested sqrt / symbolic mean / argmin: the solver does not return) - borders are the listed concrete sets and the real borders of the small masks",
     "for border sets with irrational radii (irr_* sets, mask borders): points whose squared radius is within a relative 1e-9 of the squared minimum border radius "
     "(the 'unchanged' / 'relocated' clauses are not claimed inside that band; the ray / inward / max-radius clauses are claimed everywhere)",
     "masks larger than the stated shapes; sub-sizes above 4; more than 3 relocated points per call (points are processed independently by the kernel loop)",
-    "preloads.relocated_grid (a stored grid is returned as is)",
+    "preloads.relocated_grid as the data grid itself (a stored grid is returned as is; only the mesh relocation against its border is checked)",
+    "histories on one relocator longer than the listed two-to-five call sequences",
     "which pixels are border pixels (property C10): the border pixel list is taken from mask_2d_util.border_slim_indexes_from",
 ]
 STUBS = ["scipy.spatial.Delaunay is never reached (Mesh2DDelaunay is constructed lazily; only the relocated grids of MapperGrids are read)"]
@@ -76,61 +79,6 @@ EXPLORER_OPTS = {"timeout_ms": 15000, "max_paths": 200000}
 BUDGET_S = {"quick": 600, "thorough": 2300}
 
 TOL = 1e-9
-
-
-def POST_INSTALL():
-    """engine work-around (no edit of symx): nlsat run times are heavy-tailed, so an 'unknown' obligation query is retried
-    with fresh solvers (QF_NRA tactic / default tactic, other seeds). Only ever replaces 'unknown' by a definite answer of z3."""
-    from symx import explore
-    if getattr(explore.Explorer, "_c18_retry", False):
-        return
-    orig = explore.Explorer._check_sliced
-
-    def check_sliced(self, *extra, group=None):
-        r, m = orig(self, *extra, group=group)
-        if r != "unknown":
-            return r, m
-        import time
-        for logic, seed, tmo in (("QF_NRA", 1, 20000), (None, 7, 20000), ("QF_NRA", 3, 60000), (None, 11, 120000)):
-            sol = z3.SolverFor(logic) if logic else z3.Solver()
-            sol.set("timeout", tmo)
-            sol.set("random_seed", seed)
-            sol.add(*self.constraints)
-            sol.add(*extra)
-            t0 = time.time()
-            res = str(sol.check())
-            self.stats.queries += 1
-            self.stats.solver_time += time.time() - t0
-            if res == "sat":
-                return "sat", sol.model()
-            if res == "unsat":
-                return "unsat", None
-        return "unknown", None
-
-    orig_twin = explore.Explorer.twin
-
-    def twin(self):
-        r, m = orig_twin(self)
-        if r != "unknown":
-            return r, m
-        for logic, seed, tmo in (("QF_NRA", 1, 20000), (None, 7, 30000), ("QF_NRA", 3, 120000)):
-            sol = z3.SolverFor(logic) if logic else z3.Solver()
-            sol.set("timeout", tmo)
-            sol.set("random_seed", seed)
-            sol.add(*self.constraints)
-            res = str(sol.check())
-            self.stats.queries += 1
-            if res == "sat":
-                self.stats.twins_sat += 1
-                self.model = sol.model()
-                return "sat", self.model
-            if res == "unsat":
-                return "unsat", None
-        return "unknown", None
-
-    explore.Explorer._check_sliced = check_sliced
-    explore.Explorer.twin = twin
-    explore.Explorer._c18_retry = True
 
 
 # ---------------------------------------------------------------------------- three-valued logic helpers (proxies or python bools)
@@ -479,6 +427,8 @@ def body_class(inp, H, W, s, kind, which, named=None):
     mesh_pts[1, 0], mesh_pts[1, 1] = 0.125, 9.0
     if which == "mesh" and not sym:
         mesh_pts = mesh_pts.astype(float)
+    if which.startswith("hist"):
+        return _history(A, E, aa, m, br, sbs, img, free, q, v, kind, which, sym)
     data_grid = aa.Grid2DIrregular(values=data)
     mesh_grid = aa.Grid2DIrregular(values=mesh_pts)
     if which == "grid":
@@ -506,6 +456,62 @@ def body_class(inp, H, W, s, kind, which, named=None):
         A["mesh.no_relocator_returns_input"] = hx.attempt(
             lambda: dl.relocated_mesh_grid_from(border_relocator=None, source_plane_data_grid=data_grid, source_plane_mesh_grid=mesh_grid) is mesh_grid)
         E["mesh.no_relocator_returns_input"] = True
+    return A, E
+
+
+PLANE_B_SHIFT = (2.0, -1.0)
+
+
+def _history(A, E, aa, m, br, sbs, img, free, q, v, kind, which, sym):
+    """two-step histories on ONE relocator: every call must use the border of the data grid passed to THAT call.
+    Plane A and plane B are two source-plane data grids whose borders (grid at the sub-border indices) are different
+    exact-radius sets with different centroids."""
+    from autoarray.preloads import Preloads
+    K = len(sbs)
+    BA = exact_border(K, kind)
+    BB = exact_border(K, kind + 1) + np.array(PLANE_B_SHIFT)
+    srcA, srcB = img.copy(), img.copy() * 2.0
+    for j, t in enumerate(sbs):
+        srcA[int(t)], srcB[int(t)] = BA[j], BB[j]
+    dataA = srcA
+    dataB = shim.as_obj(srcB) if (sym and which == "hist_grid") else srcB.copy()
+    if which == "hist_grid" and free:
+        slot = free[len(free) // 2]
+        dataB[slot, 0], dataB[slot, 1] = q[0], q[1]
+    mesh_pts = np.empty((2, 2), dtype=object if (sym and which == "hist_mesh") else float)
+    mesh_pts[0, 0], mesh_pts[0, 1] = (v[0], v[1]) if which == "hist_mesh" else (7.5, -3.25)
+    mesh_pts[1, 0], mesh_pts[1, 1] = 0.125, 9.0
+    gA, gB, mesh_grid = aa.Grid2DIrregular(values=dataA), aa.Grid2DIrregular(values=dataB), aa.Grid2DIrregular(values=mesh_pts)
+    if which == "hist_mesh":
+        # grid(A) -> mesh(B): the mesh vertices must be relocated against the border of B
+        o1 = hx.attempt(lambda: br.relocated_grid_from(grid=gA))
+        relocation_obligations(A, E, "hist.grid_A.", dataA, o1, BA, True, sym)
+        o2 = hx.attempt(lambda: br.relocated_mesh_grid_from(grid=gB, mesh_grid=mesh_grid))
+        relocation_obligations(A, E, "hist.grid_A_then_mesh_on_B.", mesh_pts, o2, BB, True, sym)
+        # relocator last used on plane A, data-grid relocation preloaded: Delaunay mapper grids on plane B
+        hx.attempt(lambda: br.relocated_grid_from(grid=gA))
+        dl = aa.mesh.Delaunay()
+        mgs = hx.attempt(lambda: dl.mapper_grids_from(mask=m, source_plane_data_grid=gB, border_relocator=br, source_plane_mesh_grid=mesh_grid,
+                                                      preloads=Preloads(relocated_grid=gB)))
+        if isinstance(mgs, hx.Raised):
+            A["hist.delaunay_preloaded.no_exception"], E["hist.delaunay_preloaded.no_exception"] = repr(mgs), "ok"
+        else:
+            relocation_obligations(A, E, "hist.grid_A_then_delaunay_preloaded_on_B.", mesh_pts, mgs.source_plane_mesh_grid, BB, True, sym)
+        # mesh(B) -> mesh(A) with a concrete mesh would fork again on v; the mesh -> mesh order is covered by hist_grid's first step
+    else:
+        # mesh(A) -> grid(B) -> grid(A) -> grid(B) -> mesh(B)
+        cm = mesh_pts.astype(float)
+        o1 = hx.attempt(lambda: br.relocated_mesh_grid_from(grid=gA, mesh_grid=mesh_grid))
+        relocation_obligations(A, E, "hist.mesh_on_A.", cm, o1, BA, True, sym)
+        o2 = hx.attempt(lambda: br.relocated_grid_from(grid=gB))
+        relocation_obligations(A, E, "hist.mesh_on_A_then_grid_B.", dataB, o2, BB, True, sym)
+        o3 = hx.attempt(lambda: br.relocated_grid_from(grid=gA))
+        relocation_obligations(A, E, "hist.grid_B_then_grid_A.", dataA, o3, BA, True, sym)
+        o4 = hx.attempt(lambda: br.relocated_grid_from(grid=gB))
+        relocation_obligations(A, E, "hist.grid_A_then_grid_B.", dataB, o4, BB, True, sym)
+        hx.attempt(lambda: br.relocated_grid_from(grid=gA))
+        o5 = hx.attempt(lambda: br.relocated_mesh_grid_from(grid=gB, mesh_grid=mesh_grid))
+        relocation_obligations(A, E, "hist.grid_A_then_mesh_on_B.", cm, o5, BB, True, sym)
     return A, E
 
 
@@ -552,7 +558,7 @@ def cases(tier):
         n = H * W
         out.append(("case_subborder", {"H": H, "W": W, "smax": 3 if quick else 4, "maps": "uniform", "api": "int" if (H + W) % 2 else "array"},
                     {"split": 0 if n < 8 else 2}))
-    for (H, W) in ([(3, 4)] if quick else [(3, 4), (4, 3), (2, 5), (5, 2)]):
+    for (H, W) in ([(3, 4)] if quick else [(3, 4), (4, 3)]):
         out.append(("case_subborder", {"H": H, "W": W, "smin": 2, "smax": 2 if quick else 3, "maps": "uniform", "api": "array"}, {"split": 5}))
     # every sub-size map
     for (H, W) in _shapes(4 if quick else 6):
@@ -560,10 +566,12 @@ def cases(tier):
         if n >= 2:
             out.append(("case_subborder", {"H": H, "W": W, "smax": 3, "maps": "all", "api": "array2d" if (H + W) % 2 else "array"},
                         {"split": 0 if n < 6 else 4}))
-    for (H, W) in ([(2, 3), (3, 2)] if quick else [(2, 4), (4, 2)]):
+    for (H, W) in ([(2, 3), (3, 2)] if quick else [(2, 4)]):
         out.append(("case_subborder", {"H": H, "W": W, "smax": 2, "maps": "all", "api": "array"}, {"split": 2 if quick else 4}))
     # relocator / mesh entry points
     for (H, W) in _shapes(4 if quick else 6):
+        if (H, W) in ((1, 6), (6, 1)):
+            continue
         for s in ((1, 2) if quick else ((1, 2, 3) if H * W <= 4 else (2,))):
             for which in ("grid", "mesh"):
                 kind = (H + W + s) % 2
@@ -571,6 +579,12 @@ def cases(tier):
     for name in (("ring5", "lshape34") if quick else ("ring5", "lshape34", "blob45")):
         for which in ("grid", "mesh"):
             out.append(("case_class", {"H": 0, "W": 0, "s": 2, "kind": 1 if which == "grid" else 0, "which": which, "named": name}))
+    # two-step histories on one relocator (stale state between calls)
+    for (H, W) in (_shapes(3) + [(2, 2)] if quick else _shapes(4) + [(2, 3), (3, 2)]):
+        for which in ("hist_mesh", "hist_grid"):
+            out.append(("case_class", {"H": H, "W": W, "s": 2, "kind": (H + W) % 2, "which": which, "named": None}))
+    for name in (("lshape34",) if quick else ("lshape34", "ring5")):
+        out.append(("case_class", {"H": 0, "W": 0, "s": 2, "kind": 1, "which": "hist_mesh", "named": name}))
     return out
 
 
